@@ -1,19 +1,29 @@
 --------------------------- MODULE SnapshotTrace ---------------------------
-(* Long random call sequences executed on the real code: each line carries the calls and the snapshots the code
-   compiled (in memory, and after commit + read); TLC folds the calls with Snapshot!Compile and requires equality. *)
-EXTENDS Snapshot, Json, IOUtils, TLC
-VARIABLE l
+(* Long random call sequences executed on the real code.  One trace line per sequence: the calls, a projection of the
+   compiled snapshot after every single call (a deviation may heal a few calls later: the end state alone would hide it),
+   the complete snapshot at the end (in memory, and after commit + read).  One specification step per call: the state S
+   is advanced with Snapshot!Apply and compared; a final step per line compares the complete snapshots. *)
+EXTENDS Snapshot, Json, IOUtils, TLC, SequencesExt
+VARIABLES l, j, S
 Trace == ndJsonDeserialize(IOEnv.TRACE)
 ev == Trace[l]
-Init == l = 1
-Next ==
-  /\ l <= Len(Trace)
-  /\ ev.err = ""
-  /\ LET S == Compile(Empty, ev.calls) IN
-       /\ WellFormed(S)
-       /\ ev.mem = S
-       /\ ev.read = S
-  /\ l' = l + 1
-Spec == Init /\ [][Next]_l
-TraceAccepted == TLCGet("stats").diameter - 1 = Len(Trace)
+Init == l = 1 /\ j = 0 /\ S = Empty
+Slim(T) == [n |-> T.n, title |-> T.title, status |-> T.status, labels |-> T.labels, ncomments |-> Len(T.comments),
+            ntimeline |-> Len(T.timeline), actors |-> T.actors, participants |-> T.participants]
+Call ==
+  /\ l <= Len(Trace) /\ ev.err = "" /\ Len(ev.steps) = Len(ev.calls)
+  /\ j < Len(ev.calls)
+  /\ S' = Apply(S, ev.calls[j + 1])
+  /\ WellFormed(S')
+  /\ Slim(S') = ev.steps[j + 1]
+  /\ j' = j + 1 /\ l' = l
+End ==
+  /\ l <= Len(Trace) /\ ev.err = ""
+  /\ j = Len(ev.calls)
+  /\ ev.mem = S /\ ev.read = S
+  /\ l' = l + 1 /\ j' = 0 /\ S' = Empty
+Next == Call \/ End
+Spec == Init /\ [][Next]_<<l, j, S>>
+Steps == FoldLeft(LAMBDA acc, e : acc + Len(e.calls) + 1, 0, Trace)
+TraceAccepted == TLCGet("stats").diameter - 1 = Steps
 =============================================================================
